@@ -62,16 +62,23 @@ func DigestAppxTar(r io.Reader, hash crypto.Hash, doPageHash bool) (*AppxDigest,
 		return nil, err
 	}
 	// digest non-signature-related files
+	var pos int64
 copyf:
 	for _, f := range inz.File {
 		switch f.Name {
 		case appxManifest, appxBlockMap, appxContentTypes, appxCodeIntegrity, appxSignature, bundleManifestFile:
+			if int64(f.Offset) != pos {
+				return nil, zipslicer.ErrNotContiguous
+			}
 			info.patchStart = int64(f.Offset)
 			info.patchLen = inz.Size - info.patchStart
 			break copyf
 		default:
 			info.mtime = f.ModTime()
 			if err := info.digestFile(f, doPageHash); err != nil {
+				return nil, err
+			}
+			if err := f.CheckContiguous(&pos); err != nil {
 				return nil, err
 			}
 			if _, err := info.outz.AddFile(f); err != nil {
